@@ -64,5 +64,8 @@ let dispatch fn args = match fn, args with
   | "guarded_descent", [maxd; depth; t] ->
     let (m, ok) = guarded_descent (z_of_hex maxd) (z_of_hex depth) (rose_of t) in
     hex_of_z m ^ ":" ^ str_of_bool ok
+  | "indexed_object", [nil; len; index] ->
+    if indexed_ok (bool_of_str nil) (z_of_hex len) (z_of_hex index) then "ok" else "err"
+  | "buf_to_int64", [b] -> hex_of_z (buf_to_int64 (bytes_of_hex b))
   | _ -> failwith ("unknown function " ^ fn)
 let () = main dispatch
